@@ -1,18 +1,103 @@
 (** Property C16 — sampled polymers are well-formed molecules built from the given fragments.
-    Only statements, each closed by [exact]; proofs in Sample/SampleSpec.v (generated functions)
-    and Sample/SampleProofs.v (the growth loop, for every sequence of random picks). *)
+    Only statements, each closed by [exact]; proofs in Sample/SampleSpec.v (generated functions),
+    Sample/SampleProofs.v and Sample/SampleTree.v (the growth loop).  Every theorem holds for EVERY
+    sequence of random picks the model accepts (index in range; under random.choices a non-zero
+    weight), hence for every seed and every generator: a run that returns [Ok] is exactly a run
+    whose picks were valid ([EOutOfFuel] marks an invalid pick).
+    Not proved here, decided on the implementation's output by the check only: each copy is
+    isomorphic to its template, canonical numbering after sort_nodes_by_attr, valence completeness
+    (the hydrogen step is a pysmiles transcript). *)
 From Coq Require Import String.
 From Coq Require Import List Ascii ZArith Bool.
 From CGV Require Import Base.PyBase Base.PyVal Base.PyGen Sample.GenSupport Gen.SamplerGen Sample.SampleImpl
-     Sample.SampleDefs Sample.SampleSpec Sample.SampleProofs.
+     Sample.SampleDefs Sample.SampleSpec Sample.SampleProofs Sample.SampleTree Sample.SampleAccount Sample.SampleExample.
 Import ListNotations.
 Open Scope Z_scope.
 
 (** the GENERATED complement look-up only returns eligible descriptors that are complementary
-    ('$' with '$' of the same order; '>L' with '<L') *)
+    ('$' with '$' of the same order, labels free; '>L' with '<L' of identical label and order) *)
 Theorem C16_complement_lookup_sound : forall d elig cs,
   find_complementary_bonding_descriptor d elig = Ok cs ->
   forall c, In c cs -> In c elig /\ (kind_in_domain d = true -> compl_spec d c = true).
 Proof. exact find_compl_sound. Qed.
 
+Section C16.
+  Variable M : Type.
+  Variables (c0 : Z -> M) (madd : M -> M -> M) (mltb : M -> M -> bool) (misz : M -> bool).
+  Variable R : Type.
+  Variable pick : R -> nat -> option (list M) -> res (nat * R).
+  Variable cfg : config M.
+  (** fragments as returned by read_fragments (distinct node keys, fragid 0, edges between own
+      nodes), each of them connected *)
+  Hypothesis Wf : wf_frags (c_frags cfg).
+  Hypothesis Tc : Forall (fun ft => tpl_connected (snd ft)) (c_frags cfg).
+
+  (** bond_complementary: the four random decisions pick an open descriptor of the molecule, a
+      node carrying it, and a complementary partner descriptor present in the fragments *)
+  Theorem C16_bond_complementary : forall rng ob s rng',
+    step_select M c0 misz R pick cfg rng ob = Ok (s, rng') ->
+    In (s_bonding s) (map fst ob) /\
+    (exists srcs, dict_get ob (s_bonding s) = Some srcs /\ In (s_source s) srcs) /\
+    In (s_compl s) (map fst (c_byb cfg)) /\
+    (kind_in_domain (s_bonding s) = true -> compl_spec (s_bonding s) (s_compl s) = true) /\
+    In (s_fragname s, s_tnode s) (dict_get_default (c_byb cfg) (s_compl s) []).
+  Proof. exact (select_complementary M c0 misz R pick cfg). Qed.
+
+  (** step_adds_one_fragment_one_bond: the nodes of one template copy are appended, its edges
+      (without 'bonding') and exactly one bond old-node -- new-node with complementary
+      descriptors; connectedness is preserved *)
+  Theorem C16_step_adds_one_fragment_one_bond : forall rng m m' r rng',
+    step M c0 misz R pick cfg rng m = Ok (m', r, rng') ->
+    exists tpl off fo es bond,
+      dict_get (c_frags cfg) (r_fragname r) = Some tpl /\
+      map n_key (m_nodes m') = map n_key (m_nodes m) ++ map n_key (mk_nodes fo off 0 (f_nodes tpl)) /\
+      m_edges m' = (m_edges m ++ es) ++ [bond] /\ Forall (fun e => e_bonding e = None) es /\
+      e_bonding bond = Some (r_bonding r, r_compl r) /\ e_u bond = r_source r /\ e_v bond = r_target r /\
+      In (r_source r) (map n_key (m_nodes m)) /\ In (r_target r) (map n_key (mk_nodes fo off 0 (f_nodes tpl))) /\
+      (kind_in_domain (r_bonding r) = true -> compl_spec (r_bonding r) (r_compl r) = true) /\
+      bond_edges m' = bond_edges m ++ [bond] /\
+      (Connected m -> Connected m').
+  Proof. exact (step_adds_one_fragment_one_bond M c0 misz R pick cfg Wf Tc). Qed.
+
+  (** tree_of_fragments: sample() from scratch returns a connected molecule whose number of
+      inter-fragment bonds (edges carrying 'bonding'; template edges never do) is the number of
+      fragment copies (start fragment + one per step) minus one, every bond complementary *)
+  Theorem C16_tree_of_fragments : forall target fuel rng start nm i0 m cw log rng',
+    sample_growth M c0 madd mltb misz R pick cfg target fuel rng start = Ok (nm, i0, m, cw, log, rng') ->
+    Connected m /\ (length (bond_edges m) + 1 = Datatypes.S (length log))%nat /\
+    Forall (fun e => match e_bonding e with
+                     | Some (d1, d2) => kind_in_domain d1 = true -> compl_spec d1 d2 = true
+                     | None => True end) (bond_edges m).
+  Proof. exact (tree_of_fragments M c0 madd mltb misz R pick cfg Wf Tc). Qed.
+
+  (** descriptor_once: per node and descriptor, occurrences still on the node plus occurrences
+      consumed by bonds never increase along a step for old nodes, and start at what the template
+      wrote for the nodes of the new copy: no written descriptor is used twice *)
+  Theorem C16_descriptor_once : forall m s m' tgt, step_apply M cfg m s = Ok (m', tgt) ->
+    forall k d, (left_at m' k d + used_at k d (m_edges m') <= budget_before M cfg m s k d)%nat.
+  Proof. exact (descriptor_once_step M cfg). Qed.
+End C16.
+
+(** non-vacuity: a valid run of six growth steps (two fragments, '>'/'<' and labelled '$'
+    descriptors, a zero conditional reactivity, a terminal descriptor) *)
+Example C16_nonvacuous :
+  wf_frags ex_frags /\ Forall (fun ft => tpl_connected (snd ft)) ex_frags /\
+  exists cfg nm i0 m cw log r, ex_cfg = Ok cfg /\ ex_run = Ok (nm, i0, m, cw, log, r) /\ length log = 6%nat /\
+    length (m_nodes m) = 11%nat.
+Proof.
+  split; [|split].
+  - repeat constructor; cbn; try (intros [H|H]; try discriminate; try contradiction); try tauto; try discriminate;
+      intuition discriminate.
+  - repeat constructor; intros a b Ha Hb; cbn in Ha, Hb.
+    + destruct Ha as [<-|[<-|[]]], Hb as [<-|[<-|[]]]; try constructor;
+        (eapply path_step; [|constructor]); cbn; tauto.
+    + destruct Ha as [<-|[]], Hb as [<-|[]]. constructor.
+  - do 7 eexists. split; [vm_compute; reflexivity|]. split; [vm_compute; reflexivity|]. split; reflexivity.
+Qed.
+
 Print Assumptions C16_complement_lookup_sound.
+Print Assumptions C16_bond_complementary.
+Print Assumptions C16_step_adds_one_fragment_one_bond.
+Print Assumptions C16_tree_of_fragments.
+Print Assumptions C16_descriptor_once.
+Print Assumptions C16_nonvacuous.
